@@ -1,1 +1,165 @@
-fn main(){}
+//! mon-tables: monitors for C08 (slider lookup), C09 (geometry tables), C16 (ABI encodings),
+//! C17 (opening book), C18 (bitboards as sets), C19 (text forms and enum iterators).
+//!
+//! usage: mon-tables <C08|C09|C16|C17|C18|C19|merge-hashes> [--tier ..] [--seed N] [--shard I]
+//!        [--nshards N] [--out file] [--journal file] [--small] [--replay file]
+//! `--small` selects the reduced workloads used under Miri / valgrind.
+
+mod c08;
+mod c09;
+mod c16;
+mod c17;
+mod c18;
+mod c19;
+
+use refmodel::json::J;
+use refmodel::report::{self, Collector};
+
+pub struct Args {
+    pub cmd: String,
+    pub tier: String,
+    pub seed: u64,
+    pub shard: u64,
+    pub nshards: u64,
+    pub out: Option<String>,
+    pub journal: Option<String>,
+    pub small: bool,
+    pub replay: Option<String>,
+    pub rest: Vec<String>,
+}
+
+fn parse_args() -> Args {
+    let mut a = Args {
+        cmd: String::new(),
+        tier: "quick".into(),
+        seed: 1,
+        shard: 0,
+        nshards: 1,
+        out: None,
+        journal: None,
+        small: false,
+        replay: None,
+        rest: vec![],
+    };
+    let mut it = std::env::args().skip(1);
+    a.cmd = it.next().unwrap_or_default();
+    while let Some(x) = it.next() {
+        match x.as_str() {
+            "--tier" => a.tier = it.next().unwrap(),
+            "--seed" => a.seed = it.next().unwrap().parse().unwrap(),
+            "--shard" => a.shard = it.next().unwrap().parse().unwrap(),
+            "--nshards" => a.nshards = it.next().unwrap().parse().unwrap(),
+            "--out" => a.out = it.next(),
+            "--journal" => a.journal = it.next(),
+            "--scale" => {
+                it.next();
+            }
+            "--small" => a.small = true,
+            "--replay" => a.replay = it.next(),
+            _ => a.rest.push(x),
+        }
+    }
+    a
+}
+
+fn finish(c: &Collector, a: &Args) {
+    let text = c.to_json().dump();
+    match &a.out {
+        Some(p) => {
+            std::fs::write(p, &text).expect("write result");
+            c.write_hashes(&format!("{p}.hashes"));
+        }
+        None => println!("{text}"),
+    }
+}
+
+fn main() {
+    let a = parse_args();
+    if a.cmd == "merge-hashes" {
+        println!("{}", report::merge_hash_files(&a.rest));
+        return;
+    }
+    let mut c = Collector::new(&a.cmd, a.journal.as_deref());
+    if let Some(rp) = &a.replay {
+        let text = std::fs::read_to_string(rp).expect("read replay");
+        let j = J::parse(&text).expect("parse replay");
+        println!("recorded case:\n{}", j.get("detail").and_then(|d| d.as_str()).unwrap_or(""));
+        // the table monitors are deterministic enumerations: re-run the whole (cheap) check
+    }
+    // a panic inside a monitored operation (overflow check, debug assertion, bounds check) is a
+    // finding about the code under test, not a reason to lose the run
+    let known = matches!(a.cmd.as_str(), "C08" | "C09" | "C16" | "C17" | "C18" | "C19");
+    if !known {
+        eprintln!("unknown command {:?}", a.cmd);
+        std::process::exit(2);
+    }
+    let panic_msg = std::sync::Arc::new(std::sync::Mutex::new(String::new()));
+    let pm = panic_msg.clone();
+    std::panic::set_hook(Box::new(move |info| {
+        *pm.lock().unwrap() = info.to_string();
+        eprintln!("{info}");
+    }));
+    let r = std::panic::catch_unwind(std::panic::AssertUnwindSafe(|| match a.cmd.as_str() {
+        "C08" => c08::run(&mut c, &a),
+        "C09" => c09::run(&mut c, &a),
+        "C16" => c16::run(&mut c, &a),
+        "C17" => c17::run(&mut c, &a),
+        "C18" => c18::run(&mut c, &a),
+        _ => c19::run(&mut c, &a),
+    }));
+    if r.is_err() {
+        let msg = panic_msg.lock().unwrap().clone();
+        let site: String = msg.lines().next().unwrap_or("").chars().take(160).collect();
+        c.violation(
+            "operation-panicked",
+            &site,
+            format!("a monitored operation panicked: {msg}"),
+            refmodel::json::obj().set("panic", msg.as_str()),
+        );
+    }
+    if a.replay.is_some() {
+        for v in &c.violations {
+            println!("VIOLATION property={} replay={}\n  {}/{}: {}", a.cmd, a.replay.as_deref().unwrap(), v.kind, v.signature, v.detail);
+        }
+        std::process::exit(if c.violation_total > 0 { 1 } else { 0 });
+    }
+    finish(&c, &a);
+}
+
+// ------------------------------------------------------------------------------------ helpers
+
+use chess_bitboard::{BitBoard, Pos};
+
+pub fn pos(s: u8) -> Pos {
+    Pos::from_u8(s).unwrap()
+}
+pub fn bb(x: u64) -> BitBoard {
+    BitBoard::from_u64(x)
+}
+pub fn bit(f: i32, r: i32) -> u64 {
+    if (0..8).contains(&f) && (0..8).contains(&r) {
+        1u64 << (r * 8 + f)
+    } else {
+        0
+    }
+}
+/// squares reached from (f,r) sliding in direction (df,dr) up to and including the first occupied
+pub fn ray_attack(f: i32, r: i32, df: i32, dr: i32, occ: u64) -> u64 {
+    let mut out = 0u64;
+    let (mut x, mut y) = (f + df, r + dr);
+    while (0..8).contains(&x) && (0..8).contains(&y) {
+        let b = 1u64 << (y * 8 + x);
+        out |= b;
+        if occ & b != 0 {
+            break;
+        }
+        x += df;
+        y += dr;
+    }
+    out
+}
+pub fn full_ray(f: i32, r: i32, df: i32, dr: i32) -> u64 {
+    ray_attack(f, r, df, dr, 0)
+}
+pub const ROOK_DIRS: [(i32, i32); 4] = [(1, 0), (-1, 0), (0, 1), (0, -1)];
+pub const BISHOP_DIRS: [(i32, i32); 4] = [(1, 1), (-1, 1), (1, -1), (-1, -1)];
